@@ -891,6 +891,11 @@ func ToOCISpecOrd(c Container, rev bool) *rspec.Spec {
 			r.Unified[k] = v
 		}
 	}
+	// the children-first variant also leaves out the resources section when the container has no resources at all
+	// (an OCI spec need not have one)
+	if rev && len(c.Res) == 0 && len(c.Hp) == 0 && len(c.Uni) == 0 {
+		s.Linux.Resources = nil
+	}
 	return s
 }
 
